@@ -48,13 +48,25 @@ Proof.
 Qed.
 Print Assumptions C38_no_entry_above_head.
 
+(* Without the heads-together condition the clause is still false after 337872da5f, in
+   one remaining shape: SetHead onto a block without state, then re-import of the SAME
+   chain on the rewound head block (writeHeadBlock pulls the head header down): the old
+   entries stay above the head; they are its descendants (anc 2 1 = head), and a tx resolves
+   into one of them.  The other shape (a COMPETITOR imported there, entries that are not
+   descendants) was the defect repaired by 337872da5f: C38_stale_above_head_repaired. *)
 Theorem C38_no_entry_above_head_refuted :
   exists (T : tree) (fuel : nat) (ops : list op), wf_tree T /\
     let st := run T fuel genesis_db ops in
-    hd_header st = 5 /\ hd_block st = 5 /\ num_of T 5 = 1 /\ canon st 1 = Some 5 /\
+    hd_header st = 1 /\ hd_block st = 1 /\ num_of T 1 = 1 /\ canon st 1 = Some 1 /\
     canon st 2 = Some 2 /\ anc T 2 1 = Some 1 /\ resolve_tx T st 7 = Some (2, 2).
 Proof. exact no_entry_above_head_refuted. Qed.
 Print Assumptions C38_no_entry_above_head_refuted.
+
+Theorem C38_stale_above_head_repaired :
+  let st := wrun stale_ops in
+  hd_header st = 5 /\ hd_block st = 5 /\ canon st 1 = Some 5 /\ canon st 2 = None /\ canon st 3 = None.
+Proof. exact stale_repaired. Qed.
+Print Assumptions C38_stale_above_head_repaired.
 
 (* reorg: the removed logs are those of the old branch above the common ancestor and
    the added logs those of the new branch above it, new head excluded (its logs are
